@@ -92,7 +92,7 @@ MacBase(j) == CASE j = 1 -> Aka(1, 9, 1, << AV(AT_RAND, 16), AV(AT_AUTN, 16), AV
 ReceiverSet ==
   UNION { LET w == EapPlain(MacBase(j)) n == Len(w.attrs) IN
           { << [w EXCEPT !.attrs = Permute(w.attrs, f)], IF \A a \in 1..(n - 1) : f[a] < f[a + 1] THEN "recv-canonical" ELSE "recv-order" >> : f \in Perms(n) }
-          \cup { << [w EXCEPT !.rsv = 513], "recv-rsv" >>,
+          \cup { << [w EXCEPT !.rsv = 513], "recv-hdrrsv" >>, << [w EXCEPT !.rsv = 65280], "recv-hdrrsv" >>,
                  << [w EXCEPT !.attrs = [a \in 1..n |-> IF w.attrs[a].t \in AkaFixed16 THEN [w.attrs[a] EXCEPT !.rsv = 258] ELSE w.attrs[a]]], "recv-rsv" >> }
           : j \in 1..6 }
 \* a received packet of more than 4096 octets (larger than any internal read buffer): canonical order, zero reserved octets, five
@@ -133,14 +133,23 @@ DupVector ==
                          k(1), k(2), k(3), AkaAttrPlain(AV(AT_KDF_INPUT, 7)), AkaAttrPlain(AV(AT_MAC, 16)) >>]
       b == EncEapW(w) IN
   Vector("eap_dup", [q \in 1..3 |-> Step("eap_reencode", << "C12", "C20", "C14" >>[q], FALSE, [wire |-> b], [stable |-> TRUE] @@ ExpectEapReencode(b))])
-Count(k) == CASE k = "unknown" -> 10 [] k = "eap" -> Len(EapPool) [] k = "code" -> 256 [] k = "set" -> 7 [] k = "sender" -> Len(EapPool) [] k = "receiver" -> Len(ReceiverSeq)
+\* EAP-5G (expanded type, vendor 10415, type 3): the vendor data is opaque to the codec; every prefix of a well-formed 5G-NAS
+\* request / response (message id, spare, AN-parameters with two entries, NAS length, NAS PDU) and of a 5G-Start must decode to that
+\* opaque value -- no crash whatever structure a decoder may look for in it (C04 C14)
+Eap5GFull(resp) == IF resp THEN << 2, 0, 0, 7, 1, 2, 9, 9, 3, 1, 5, 0, 4, 126, 0, 65, 1 >> ELSE << 2, 0, 0, 4, 126, 0, 65, 1 >>
+Eap5GVector(resp) ==
+  LET full == Eap5GFull(resp)
+      pk(n) == [code |-> IF resp THEN 2 ELSE 1, id |-> 60 + n, m |-> "expanded", vid |-> 10415, vtype |-> << 0, 0, 0, 3 >>, data |-> Take(full, n)] IN
+  Vector("eap5g", [n \in 1..(Len(full) + 1) |->
+     LET b == EncEap(pk(n - 1)) IN Step("eap_decode", IF n % 2 = 0 THEN "C04" ELSE "C14", FALSE, [wire |-> b, caps |-> TRUE], ExpectEapDecode(b))])
+Count(k) == CASE k = "unknown" -> 12 [] k = "eap" -> Len(EapPool) [] k = "code" -> 256 [] k = "set" -> 7 [] k = "sender" -> Len(EapPool) [] k = "receiver" -> Len(ReceiverSeq)
               [] k = "prf" -> 49 * Len(IdPool)
 SetTypes == << AT_RAND, AT_AUTN, AT_RES, AT_MAC, AT_KDF_INPUT, AT_KDF, AT_CHECKCODE >>
 Init == stage = 0 /\ kind = "" /\ i = 0
 Next == \/ stage = 0 /\ stage' = 1 /\ kind' \in Kinds /\ i' = 0
         \/ stage = 1 /\ stage' = 2 /\ kind' = kind /\ i' \in 1..Count(kind)
         \/ stage = 2 /\ UNCHANGED << stage, kind, i >>
-Vec == CASE kind = "unknown" -> IF i = 9 THEN BigEapVector ELSE IF i = 10 THEN DupVector ELSE UnknownAttrVector(i)
+Vec == CASE kind = "unknown" -> IF i = 9 THEN BigEapVector ELSE IF i = 10 THEN DupVector ELSE IF i >= 11 THEN Eap5GVector(i = 12) ELSE UnknownAttrVector(i)
          [] kind = "eap" -> EapVector(EapPool[i])
          [] kind = "code" -> CodeVector(i - 1)
          [] kind = "set" -> SetterVector(SetTypes[i])
